@@ -109,8 +109,12 @@ CLAIMS = {
             "paths_match is an equivalence that agrees with normalisation, a target that is the folder itself (up to separators, and up to "
             "letter case on a case-insensitive provider) is inside it with the empty relative part and not strictly inside it, translate "
             "uses the source side's conventions; every "
-            "subscript carries a no-exception obligation (found D4 and D8, both fixed). Counterexamples are replayed on the real code.",
-            "String builtins follow specifications (strip/find/replace/lower as functions with axioms) conformance-tested against CPython each run; normalize_path's own body is not proved."),
+            "subscript carries a no-exception obligation (found D4 and D8, both fixed). Counterexamples are replayed on the real code. "
+            "Bounded supplement, reported separately and not counted as proved: the body of normalize_path (idempotence, display form "
+            "vs plain form, equality with the normal form) and the equivalence form of split-then-join are checked exhaustively for "
+            "every string of <= 5 (thorough: 6) characters over a 9-character alphabet plus token sequences with doubled separators, "
+            "per path convention (contracts/bounded_paths.py).",
+            "String builtins follow specifications (strip/find/replace/lower as functions with axioms) conformance-tested against CPython each run; normalize_path's own body (re.split + join over a list of unknown length) is not proved, only bounded."),
     "C14": ("proof", "Lemma-level proof. Events without an id are ignored (except a folder deletion matched by path); a walk event that "
             "changes nothing is ignored; pre_sync always re-reads both sides before an entry is acted on; re-reading records the "
             "provider's truth, never changes the id, flags unseen changes and tombstones vanished objects; applying an event (no "
